@@ -84,6 +84,8 @@ func checkC20(r *core.Run) {
 	c20Globals(r)
 	c20Release(r)
 	c20Block(r)
+	c20Reentry(r)
+	r.Floor("C20.reentry", 3)
 	r.Floor("C20.guarded", 15)
 	r.Floor("C20.release", 10)
 	r.Floor("C20.block", 3)
